@@ -309,16 +309,12 @@ func (blockchain *Blockchain) isApplicationHalted(height uint64) bool {
 		}
 	}
 
-	votingResult := new(big.Float).Quo(
-		new(big.Float).SetInt(totalVotedPower),
-		new(big.Float).SetInt(blockchain.totalPower),
-	)
+	return isMoreThanTwoThirds(totalVotedPower, blockchain.totalPower)
+}
 
-	if votingResult.Cmp(big.NewFloat(votingPowerConsensus)) == 1 {
-		return true
-	}
-
-	return false
+// isMoreThanTwoThirds reports whether votedPower/totalPower is strictly greater than 2/3 (exact integer arithmetic)
+func isMoreThanTwoThirds(votedPower, totalPower *big.Int) bool {
+	return new(big.Int).Mul(votedPower, big.NewInt(3)).Cmp(new(big.Int).Mul(totalPower, big.NewInt(2))) == 1
 }
 
 // Deprecated
@@ -360,7 +356,7 @@ func (blockchain *Blockchain) isUpdateCommissionsBlockV2(height uint64) []byte {
 		return nil
 	}
 	// calculate total power of validators
-	maxVotingResult := big.NewFloat(0)
+	maxVotingResult, maxVotedPower := big.NewFloat(0), big.NewInt(0)
 
 	var price string
 	for _, commission := range commissions {
@@ -377,10 +373,11 @@ func (blockchain *Blockchain) isUpdateCommissionsBlockV2(height uint64) []byte {
 
 		if maxVotingResult.Cmp(votingResult) == -1 {
 			maxVotingResult = votingResult
+			maxVotedPower = totalVotedPower
 			price = commission.Price
 		}
 	}
-	if maxVotingResult.Cmp(big.NewFloat(votingPowerConsensus)) == 1 {
+	if isMoreThanTwoThirds(maxVotedPower, blockchain.totalPower) {
 		return []byte(price)
 	}
 
@@ -393,7 +390,7 @@ func (blockchain *Blockchain) isUpdateNetworkBlockV2(height uint64) (string, boo
 		return "", false
 	}
 	// calculate total power of validators
-	maxVotingResult := big.NewFloat(0)
+	maxVotingResult, maxVotedPower := big.NewFloat(0), big.NewInt(0)
 	var version string
 	for _, v := range versions {
 		totalVotedPower := big.NewInt(0)
@@ -409,10 +406,11 @@ func (blockchain *Blockchain) isUpdateNetworkBlockV2(height uint64) (string, boo
 
 		if maxVotingResult.Cmp(votingResult) == -1 {
 			maxVotingResult = votingResult
+			maxVotedPower = totalVotedPower
 			version = v.Version
 		}
 	}
-	if maxVotingResult.Cmp(big.NewFloat(votingPowerConsensus)) == 1 {
+	if isMoreThanTwoThirds(maxVotedPower, blockchain.totalPower) {
 		return version, true
 	}
 
